@@ -80,3 +80,8 @@ PROPS["C19"] = {"families": ["memstream"], "assumptions": ADAPTER_ASSUME + ["dom
                 "explanation": "memstreamer and its connector vs the reference log with per-name positions: exhaustive short sequences, random long ones, empty and pre-filled logs"}
 PROPS["C12"]["families"] = ["engine", "memtimeout"]
 PROPS["C12"]["assumptions"] = ENGINE_ASSUME + ADAPTER_ASSUME
+
+PROPS["C10"]["families"] = ["shard", "launch"]
+PROPS["C10"]["assumptions"] = PROPS["C10"]["assumptions"] + ["launch: hooks are listed in a fixed order in the model; the implementation ranges over a map, so the compared observation is the sorted list of roles",
+    "role strings: strings.ToLower modelled on ASCII only (the harness uses ASCII names)"]
+PROPS["C10"]["explanation"] += "; launch list and role names: every combination of default / per-step / per-connector parallel count in {0,1,2,3,8} x timeouts x hooks x paused-retry + random configurations, two builds differing only in status display strings"
